@@ -85,13 +85,13 @@ Definition att_from_bytes (table : list (Z * list fspec)) (pdu : list Z) : pdu_r
       end
   end.
 
-(* smp.SMP_Command.from_bytes (the generic instance keeps the whole pdu as payload) *)
+(* smp.SMP_Command.from_bytes (the generic instance keeps pdu[1:] as payload, like ATT) *)
 Definition smp_from_bytes (table : list (Z * list fspec)) (pdu : list Z) : pdu_res :=
   match pdu with
   | [] => PErr EEmpty
   | code :: _ =>
       match lookup code table with
-      | None => PGeneric code pdu
+      | None => PGeneric code (tl pdu)
       | Some fs => match parse_fields fs pdu 1 with
                    | inl e => PErr e
                    | inr (vals, _) => PKnown code vals
